@@ -103,7 +103,7 @@ class Case:
 
     def decoy(self, nm):
         lit = self.values[nm]
-        other = {"i": ("i", (lit[1] + 1) if lit[0] == "i" else 0), "b": ("b", not lit[1]) if lit[0] == "b" else ("b", True),
+        other = {"i": ("i", (lit[1] - 1 if lit[1] > 0 else lit[1] + 1) if lit[0] == "i" else 0), "b": ("b", not lit[1]) if lit[0] == "b" else ("b", True),
                  "s": ("s", ["decoy"]), "o": ("o", "DEC0")}[lit[0]]
         ty = {"i": INT, "b": ("bool",), "s": ("str", "utf8", ("any",)), "o": ("oct", ("any",))}[lit[0]]
         return ("vr", nm, ty, other)
